@@ -23,7 +23,7 @@ def surface_product(tier):
     rains = ["N", "R", "M", "S"]
     irrs = ["none", "const8e70", "const40e40"]
     soils = ["Sand", "Clay", "Paddy"]
-    cnadj = [(False, 0), (True, -20), (True, 20), (False, 20)]
+    cnadj = [(False, 0), (True, -20), (True, 20), (False, 20), (True, 0.8), (True, -0.5)]   # incl. percentages smaller than 1 %
     for bund, srinhb, adjcn, (cnflag, cnpct), rain, irr, soil, season_only in itertools.product(
         ["off", "b50", "b200"], [False, True], [0, 1], cnadj, rains, irrs, soils, [False, True]
     ):
@@ -53,7 +53,8 @@ def scenarios(tier, seed=0):
     yield from W.water_scenarios(tier, menus=menus, full=(tier != "quick"))
     prod = list(surface_product(tier))
     if tier == "quick":
-        prod = prod[::3]
+        # every third point, plus every point with a sub-1 % curve-number adjustment on an unbunded field
+        prod = [x for i, x in enumerate(prod) if i % 3 == 0 or (abs(x["label"]["surface"][4]) < 1 and x["label"]["surface"][3] and x["label"]["surface"][0] == "off" and not x["label"]["surface"][1])]
     yield from prod
 
 
